@@ -1017,7 +1017,8 @@ func (w *xlWorld) translateFunc(repo string, p *xlPkg, f *xlFunc, fd *ast.FuncDe
 	defer func() { xlPlainMode = false }()
 	x := &xl{w: w, p: p, f: f, fd: fd, names: map[types.Object]string{}, used: map[string]bool{}, flat: map[string]string{},
 		opaque: map[string]string{}, touched: map[string]bool{}, optVars: map[types.Object]bool{}, paramObjs: map[types.Object]bool{},
-		inGroup: map[*types.Func]bool{}, dispatch: map[string]string{}}
+		inGroup: map[*types.Func]bool{}, dispatch: map[string]string{},
+		mutated: map[types.Object]bool{}, accAlias: map[types.Object]bool{}}
 	if !domMode {
 		// the plain subset of translate.go
 		saved := w.dom
@@ -1149,6 +1150,9 @@ func (w *xlWorld) translateFunc(repo string, p *xlPkg, f *xlFunc, fd *ast.FuncDe
 	}
 	body, err := x.block(fd.Body.List, k)
 	if err != nil {
+		return "", err
+	}
+	if err := x.checkAliases(); err != nil {
 		return "", err
 	}
 	if x.fuelIdx != len(f.Fuel) {
